@@ -685,6 +685,10 @@ def _unpack_sequence(vm, s, f, ins):
             except VMRaise as e:
                 vm.raise_under(s, g, e.exc)
                 continue
+            except Unsupported:
+                if vm.feasible(AND(s.guard, g)):
+                    raise
+                continue
             for i in range(n):
                 cols[i].append((g, seq[i]))
         seq = [mk_union(c) for c in cols]
@@ -746,7 +750,12 @@ def _gyfi(vm, s, f, ins):
 def _for_iter(vm, s, f, ins):
     it = f.stack[-1]
     if type(it) is Union:
-        it = vm.project(s, it, True)
+        it = vm.project(s, it)
+        if type(it) is Union and all(type(x) is VIter for _, x in it.alts):
+            it = VIter(C.iter_items(vm, s, it), 0, None)
+            f.stack[-1] = it
+        else:
+            it = vm.project(s, it, True)
         if type(it) is Union:
             def k(s2, alt):
                 s2.frames[-1].stack[-1] = alt
@@ -769,15 +778,13 @@ def _for_iter(vm, s, f, ins):
         return None
     gp = AND(s.guard, p)
     gn = AND(s.guard, NOT(p))
-    if vm.prune_branches:
-        if gp is not FALSE and not vm.feasible(gp):
-            gp = FALSE
     out = []
     if gn is not FALSE:
         s2 = s.copy(gn) if gp is not FALSE else s
         f2 = s2.frames[-1]
         f2.stack[-1] = nxt
-        f2.counts[f2.pc] = f2.counts.get(f2.pc, 0) + 1
+        h = f2.ci.for_header[f2.pc]
+        f2.counts[h] = f2.counts.get(h, 0) + 1
         s2.guard = gn
         out.append(s2)
     if gp is not FALSE:
@@ -1109,6 +1116,10 @@ def _load_attr(vm, s, f, ins):
                 break
             except VMRaise as e:
                 vm.raise_under(s, g, e.exc)
+                continue
+            except Unsupported:
+                if vm.feasible(AND(s.guard, g)):
+                    raise
                 continue
             res.append((g, VMethod(v, x) if kind == "method" else v))
         if ok:
